@@ -11,20 +11,29 @@ VERUS_FLAGS = ['--no-lifetime']
 VERIFY_MODULES = ['app::approot']
 
 
-def build(ctx):
-    p = bk.parts(ctx)
-    f = fxu.fx_parts(ctx)
-    import units.ord as ordu
-    o = ordu.ord_parts(ctx)
+def tx_csv_part(ctx):
     tc = Src(ctx, 'portfolio/io/tx_csv.rs').cut_tests().standard()
     tc.only(['struct TxCsvParseOptions', 'fn parse_tx_csv'], why='csv crate / string parsing is outside the verifier')
     tc.sub(r'(?ms)^(pub )?use [^;]*;\n', '', 'select')
     tc.ext_fn('parse_tx_csv', why='csv parsing; contract: row i gets read index initial+i')
     tc.replace("crate::util::date::DynDateFormat", "crate::util::date_fmt::DynDateFormat", 'R1')
+    tx_csv_use = "use crate::portfolio::CsvTx;\nuse crate::util::rw::WriteHandle;\nuse crate::util::rw_reader::DescribedReader;\ntype Error = String;\n"
+    return mod('tx_csv', tx_csv_use + tc.text())
+
+
+APP_USE = ("use std::collections::HashMap;\nuse vstd::std_specs::iter::IteratorSpec;\nuse crate::time::Date;\nuse crate::fx::io::RateLoader;\n"
+           "use crate::portfolio::bookkeeping::{txs_to_delta_list, DeltaListResult, TxDeltaListError};\n"
+           "use crate::portfolio::io::tx_csv::{parse_tx_csv, TxCsvParseOptions};\nuse crate::portfolio::io::tx_loader::load_tx_rates;\n"
+           "use crate::portfolio::{PortfolioSecurityStatus, Security, Tx, TxDelta};\n"
+           "use crate::util::rw::WriteHandle;\nuse crate::util::rw_reader::DescribedReader;\n")
+
+
+def approot_src(ctx, items):
+    """app/approot.rs reduced to `items`, with the rewrites and the syntactic obligation of run_acb_app_to_delta_models"""
     ar = Src(ctx, 'app/approot.rs').cut_tests().standard()
     ar.sub(r'\basync fn\b', 'fn', 'R10')
     ar.sub(r'\.await\b', '', 'R10')
-    ar.only(['type Error', 'fn run_acb_app_to_delta_models'])
+    ar.only(items)
     ar.sub(r'(?ms)^use [^;]*;\n', '', 'select')
     ar.replace("for (sec, mut sec_txs) in txs_by_sec {", "let __ents = hole_map_entries(txs_by_sec);\n    for (sec, mut sec_txs) in __ents {", 'H')
     # syntactic obligation (not a Verus proof): once the rows are read, no `?` / `return` may leave the function --
@@ -32,25 +41,29 @@ def build(ctx):
     from vx.lex import lex
     txt = ar.text()
     k = txt.find('let __ents = hole_map_entries(txs_by_sec);')
-    tail = [t[1] for t in lex(txt[k:])] if k >= 0 else ['?']
+    e = txt.find('\n}\n', k)                     # end of the (top-level) function
+    tail = [t[1] for t in lex(txt[k:e if e >= 0 else len(txt)])] if k >= 0 else ['?']
     # the final `Ok(delta_results)` is the tail expression; any `?` or `return` after the partition is an escape
     if '?' in tail or 'return' in tail:
         ctx.lints.append(dict(tags=['C08', 'C04'], function='app::approot::fn run_acb_app_to_delta_models',
                               label='per-security phase has no early exit: an error of one security stays its own result',
                               message='a `?` or `return` occurs after the rows have been partitioned per security; one '
                                       'security\'s error would abort the whole run'))
-    app_use = ("use std::collections::HashMap;\nuse vstd::std_specs::iter::IteratorSpec;\nuse crate::time::Date;\nuse crate::fx::io::RateLoader;\n"
-               "use crate::portfolio::bookkeeping::{txs_to_delta_list, DeltaListResult, TxDeltaListError};\n"
-               "use crate::portfolio::io::tx_csv::{parse_tx_csv, TxCsvParseOptions};\nuse crate::portfolio::io::tx_loader::load_tx_rates;\n"
-               "use crate::portfolio::{PortfolioSecurityStatus, Security, Tx, TxDelta};\n"
-               "use crate::util::rw::WriteHandle;\nuse crate::util::rw_reader::DescribedReader;\n")
-    app = mod('app', mod('approot', app_use + ar.text()))
-    tx_csv_use = "use crate::portfolio::CsvTx;\nuse crate::util::rw::WriteHandle;\nuse crate::util::rw_reader::DescribedReader;\ntype Error = String;\n"
+    return ar
+
+
+def build(ctx):
+    p = bk.parts(ctx)
+    f = fxu.fx_parts(ctx)
+    import units.ord as ordu
+    o = ordu.ord_parts(ctx)
+    ar = approot_src(ctx, ['type Error', 'fn run_acb_app_to_delta_models'])
+    app = mod('app', mod('approot', APP_USE + ar.text()))
     stubs = open(os.path.join(os.path.dirname(os.path.dirname(os.path.abspath(__file__))), 'shim', 'util_stubs.rs')).read()
     head = shim('base', 'std').replace('verus! {\n/// Trusted contracts for std', fxu.MACROS + 'verus! {\n/// Trusted contracts for std', 1)
     return (head + "verus! {\n"
             + bk.assemble(p, extra_util=stubs,
-                          extra_portfolio=mod('io', mod('tx_loader', f['txl']) + mod('tx_csv', tx_csv_use + tc.text()))
+                          extra_portfolio=mod('io', mod('tx_loader', f['txl']) + tx_csv_part(ctx))
                           + o['mods'],
                           extra_top=f['fx'] + app)
             + "} // verus!\nfn main() {}\n")
